@@ -566,9 +566,11 @@ class Interp:
             return self.eq(a, b)
         if isinstance(a, Mut) or isinstance(b, Mut):
             return a is b
-        if isinstance(a, str) and isinstance(b, str):
-            # identity of str objects: modelled as equality (interned protocol constants)
-            return a == b
+        from .strings import XStr as _XI
+        if isinstance(a, (str, _XI)) and isinstance(b, (str, _XI)):
+            # identity of str objects: modelled as equality (the protocol constants compared with
+            # `is` travel through in-process queues, i.e. they are the same objects)
+            return self.eq(a, b)
         if isinstance(a, Sym) or isinstance(b, Sym):
             raise EngineError(f"'is' on {a!r}, {b!r}")
         if is_int_like(a) and is_int_like(b):
@@ -1324,7 +1326,16 @@ class Interp:
         from .strings import XStr as _X
         if isinstance(key, _X):
             if key.alts is None:
-                raise EngineError(f'dict key {key!r}')
+                # opaque text: compare with every key
+                conds = [(self.eq(key, k), k) for k in d.d if isinstance(k, str)]
+                none = b_not(b_or(*[c_ for c_, _ in conds]))
+                if self.ctx.decide(none):
+                    raise PyRaise(KeyError, ('<key>',))
+                acc = d.d[conds[-1][1]]
+                for c_, k in reversed(conds[:-1]):
+                    acc = V.merge(BT(c_), d.d[k], acc) if not isinstance(c_, bool) else \
+                        (d.d[k] if c_ else acc)
+                return acc
             missing = b_or(*[g for g, t in key.alts if t not in d.d])
             if self.ctx.decide(missing):
                 raise PyRaise(KeyError, ('<key>',))
@@ -1472,10 +1483,10 @@ class Interp:
 
     def to_str(self, v):
         from .strings import XStr, str_of_int
-        if isinstance(v, (str, XStr)):
-            return v
         if isinstance(v, SOpt):
             v = self.unopt(v)
+        if isinstance(v, (str, XStr)):
+            return v
         if isinstance(v, (SEnum, enum.Enum)):
             cls = V.enum_cls_of(v)
             f = self.lookup_class_attr(cls, '__str__')
